@@ -1045,7 +1045,29 @@ def transpose(a, axes=None): return a.transpose(axes) if axes is not None else a
 def squeeze(a, axis=None): return a.squeeze(axis)
 def reshape(a, shape): return a.reshape(shape)
 def roll(a, shift, axis=None):
-    if axis is None: raise NeedsContract('roll without axis')
+    if axis is None:
+        # numpy rolls the FLATTENED array and restores the shape: elements cross row boundaries
+        a = asarray(a)
+        if a.ndim == 1: return roll(a, shift, 0)
+        if not isinstance(shift, int) or not builtins.all(isinstance(d, int) for d in a.shape[1:]): raise NeedsContract('roll of the flattened array with symbolic trailing extents')
+        M = 1
+        for d in a.shape[1:]: M *= d
+        n0 = a.shape[0]; tail = tuple(a.shape[1:]); f = a.snapshot()
+        def src(i):
+            if not builtins.all(isinstance(k, int) for k in i[1:]): raise NeedsContract('roll of the flattened array at a symbolic trailing position')
+            r = 0
+            for k, d in zip(i[1:], tail): r = r * d + k
+            q, r2 = divmod(r - shift, M)
+            idx = []
+            for d in reversed(tail): idx.append(r2 % d); r2 //= d
+            i0 = i[0]
+            if isinstance(i0, int) and isinstance(n0, int): row = (i0 + q) % n0
+            else:
+                z = zi(i0) + q; nz = zi(n0)
+                if builtins.abs(q) > 1: raise NeedsContract('roll of the flattened array by more than one row')
+                row = mk_int(z3.If(z < 0, z + nz, z3.If(z >= nz, z - nz, z)))
+            return f((row,) + tuple(reversed(idx)))
+        return ndarray.fresh(a.shape, src, a.dtype)
     axis = axis % a.ndim; n = a.shape[axis]
     if not isinstance(n, int) or not isinstance(shift, int): raise NeedsContract('symbolic roll')
     f = a.snapshot()
